@@ -5,6 +5,7 @@
 import Lean.Data.Json
 import DDV.Gen.Pipeline
 import DDV.Gen.EnumSem
+import DDV.Gen.AddrSem
 
 namespace DDV.Gen
 open Lean (Json)
@@ -145,13 +146,36 @@ def enumTableJson (e : LEnum) : Json :=
     ("into", Json.arr (e.variants.map fun v =>
       Json.arr #[jstr v.name, match e.toNum ⟨v.name, some 7⟩ with | some n => jint n | none => Json.null]).toArray)]
 
+def typeRange (signed : Bool) (bits : Nat) : Int × Int :=
+  if signed then (-(2 ^ (bits - 1) : Int), 2 ^ (bits - 1) - 1) else (0, 2 ^ bits - 1)
+
+/-- `DDV.Gen.AddrSem` tabulated for every accessor at a few indices (base 1000 for the exact
+    version, base 0 and 3 for the internal-type version), to be compared with the arithmetic read
+    off the real output. -/
+def addrRowJson (lo hi : Int) (m : Method) (i : Nat) : Json :=
+  let optJ (o : Option Int) : Json := match o with | some v => jint v | none => Json.null
+  Json.arr #[jnat i, optJ (m.addrAt 1000 i), optJ (m.addrAtT lo hi 0 i), optJ (m.addrAtT lo hi 3 i),
+             jint (m.reportedAt i)]
+
+def addrMethodJson (lo hi : Int) (m : Method) : Json :=
+  let count := match m.repeat_ with | some r => r.count | none => 1
+  let idxs := [0, 1, 2, count - 1, count].eraseDups
+  Json.mkObj [("name", jstr m.name), ("rows", Json.arr (idxs.map (addrRowJson lo hi m)).toArray)]
+
+def addrTableJson (l : Lir) : Json :=
+  let (lo, hi) := typeRange l.internalSigned l.internalBits
+  Json.arr (l.blocks.map fun b =>
+    Json.mkObj [("block", jstr b.name),
+                ("methods", Json.arr (b.methods.map (addrMethodJson lo hi)).toArray)]).toArray
+
 def factsOk (n : Names) (l : Lir) : Json :=
   Json.mkObj [("outcome", jstr "ok"),
     ("internal_address_type", jstr (carrierName l.internalSigned l.internalBits)),
     ("blocks", Json.arr (l.blocks.map blockJson).toArray),
     ("field_sets", Json.arr ((l.fieldSets.filter (·.sizeBits > 0)).map (fieldSetJson n)).toArray),
     ("enums", Json.arr (l.enums.map enumJson).toArray),
-    ("enum_tables", Json.arr (l.enums.map enumTableJson).toArray)]
+    ("enum_tables", Json.arr (l.enums.map enumTableJson).toArray),
+    ("addr_tables", addrTableJson l)]
 
 def factsStop : Stop → Json
   | .error e => Json.mkObj [("outcome", jstr "error"), ("stage", jstr e.stage), ("kind", jstr e.kind),
